@@ -134,6 +134,31 @@ def work_hist(chunk):
         if d1 != d2:
             col.violation({"property": "C09", "sig": "C09:second-simulate-on-same-object-differs", "kind": "hist", "spec": spec, "opts": opts, "hist": "sim;sim",
                            "detail": {"first_difference": first_diff(d1, d2)}})
+        # (1a) earlier activity with *other* arguments on the same object, then the reference call again
+        for hist in (("sim-abs",), ("sim", "insert"), ("sim-abs", "remove"), ("sim-auto",)):
+            mo = runner.prepare(spec, opts)
+            try:
+                for op in hist:
+                    if op == "sim":
+                        mo.project.simulate(**runner.sim_kwargs(opts))
+                    elif op == "sim-abs":
+                        mo.project.simulate(**runner.sim_kwargs(dict(opts, absence=[1, 2])))
+                    elif op == "sim-auto":
+                        mo.project.simulate(**runner.sim_kwargs(dict(opts, absence=[0], auto_abs=True)))
+                    elif op == "insert":
+                        mo.project.insert_absence_time_list([1])
+                    elif op == "remove":
+                        mo.project.remove_absence_time_list()
+                mo.project.simulate(**runner.sim_kwargs(opts))
+                d4 = jdump(mo)
+            except Exception as e:
+                d4 = "ERR:" + repr(e)
+            col.evaluations += len(hist) + 1
+            col.checks["c09.same-object-history"] += 1
+            col.transitions.add(hash((key, hist, "sim")))
+            if d4 != d1:
+                col.violation({"property": "C09", "sig": "C09:simulate-after-earlier-activity-on-same-object-differs:" + "+".join(hist), "kind": "hist", "spec": spec, "opts": opts, "hist": ";".join(hist) + ";sim",
+                               "detail": {"first_difference": first_diff(d1, d4) if not d4.startswith("ERR") else d4}})
         # (1b) backward run(s) on the same object, then forward: must equal the forward run of a fresh object
         for due, rev in itertools.product((False, True), repeat=2):
             mo = runner.prepare(spec, opts)
@@ -386,7 +411,7 @@ def run(tier, seed):
         "level": "model_checking",
         "rule": "schedule exploration: for every 3-task workflow over the four dependency kinds x works {1,2} x layouts x rules (thorough: also 4-task FS/FF/SS) and FAC models, ALL n! "
         "assignments of hash ranks to tasks (and all permutations for components), i.e. every iteration order of every internal set of tasks/components, complete dump compared with "
-        "the identity order (and all orders of worker hashes); histories on one object (simulate;simulate, backward_simulate with every flag pair then simulate), rebuilt models with the library's id()-hashed classes, contamination histories (activity on project A, then "
+        "the identity order (and all orders of worker hashes); histories on one object (simulate;simulate, simulate with other absence/auto arguments or log edits then simulate, backward_simulate with every flag pair then simulate), rebuilt models with the library's id()-hashed classes, contamination histories (activity on project A, then "
         "default-argument simulate on a fresh project B, mutable defaults compared), and one sub-family in two fresh interpreters with different PYTHONHASHSEED; per-iteration-event deviations: with a set subclass injected into the library's modules, every single iteration "
         "event of a run is given every alternative order of that set (deviation bound 1) on 2-3 task models; "
         "non-trivial = distinct models with at least one dependency link (permutations) or explored history roots",
